@@ -319,7 +319,8 @@ def run(R, replay=None):
     R.rule = ("(1) histories: 2-4 scanner objects over 3 configurations x 4 selections constructed in one process and run in a shuffled "
               "order, each compared with the same scanner constructed and run alone; (2) random groups and orders of example files "
               "scanned together vs alone; (3) whole-directory runs in subprocesses under different hash seeds, machine-readable reports "
-              "compared byte for byte apart from the timestamp; non-trivial = histories with at least two different scanners, all others")
+              "compared byte for byte apart from the timestamp; non-trivial = histories with at least two different scanners, all others"
+              "; scanners with different non-empty settings of the same plugin used one after the other, judged by their own settings")
     history(R, rng, R.tier)
     sequences(R, rng, R.tier)
     rescans(R, rng, R.tier)
